@@ -87,6 +87,7 @@ def history(draw):
         elif k == 'update-entry':
             s['path'] = draw(st.sampled_from(paths))
             s['hashes'] = draw(st.sampled_from([['MD5'], ['SHA1', 'SHA256']]))
+            s['save'] = draw(st.booleans())
         elif k == 'fail-dir':
             s['path'] = draw(st.sampled_from(paths))
             s['opts'] = draw(updgen.update_opts(state, allow_subdir=False))
@@ -308,8 +309,39 @@ def run_case(desc):
                 def run():
                     m = gem.loader(root, hashes=s['hashes'])
                     m.update_entry_for_path(s['path'])
-                gem.call(run)
+                    if s.get('save'):
+                        m.save_manifests()
+                view_b = manifest_view(root) if s.get('save') else None
+                oc = gem.call(run)
                 nontrivial = True
+                if s.get('save'):
+                    # a single-path update that is saved: only the entries
+                    # of that path (and the Manifest references above the
+                    # rewritten Manifests) are its business
+                    after = fsnap.snapshot(root)
+                    if oc.kind == 'return':
+                        view_a = manifest_view(root)
+                        bad = check_save(
+                            root, snap, after, view_b, view_a,
+                            {'opts': {'target': s['path'], 'api': 'lib'},
+                             'timestamp': False},
+                            f'{what} update_entry_for_path({s["path"]!r}) '
+                            f'+ save')
+                        if bad:
+                            return violation(bad[1], sig=bad[0],
+                                             classes=classes)
+                    else:
+                        d = fsnap.diff(snap, after)
+                        alien = [p for p in fsnap.changed_paths(d)
+                                 if not is_manifest_name(p)]
+                        if alien:
+                            return violation(
+                                f'{what}: failed single-path update touched '
+                                f'{alien}', sig='non-manifest-touched',
+                                classes=classes)
+                    classes.append('single-path-save')
+                    snap = after
+                    continue
             elif k == 'update-discard':
                 o = dict(s['opts'], api='lib')
                 if os.path.isdir(os.path.join(root, o['target'])):
